@@ -27,7 +27,8 @@ PROPS['C17'] = dict(
     module='SlotVerif.Props.C17',
     suites=[dict(name='slot', variant='default',
                  quick=dict(count=30000), thorough=dict(count=1000000)),
-            dict(name='mat', variant='default', shrink=False, quick=dict(count=400, timeout=900), thorough=dict(count=10000, timeout=3000))],
+            dict(name='mat', variant='default', shrink=False, quick=dict(count=400, timeout=900), thorough=dict(count=10000, timeout=3000)),
+            dict(name='rw', variant='default', shrink=False, quick=dict(count=600, timeout=900), thorough=dict(count=8000, timeout=3000))],
     rule='(the consequence "slots invented internally never capture a user slot" is exercised through the matcher: the `mat` suite of C05, '
          'where a third of the derived patterns spell their slots like slots the e-graph invented for its own classes — `$f<N>` names read '
          'back from printed classes — and the match lists are compared with the Lean matcher model and validated one by one) '
@@ -423,7 +424,8 @@ _EG_ADD = (' Session 5: 0-7 fresh slots are drawn before the e-graph is built (n
            '(redundancy, symmetry, lookup) lived on the thread before; an eighth of the histories spell every slot `$f<k>`; further streams: '
            'migrate (a node that moved into another class loses a slot later; self-referential node losing its last link), latered2, fcapture '
            '(`λx. x $f<N>` with N ahead of the fresh counter), symred4 (composite symmetry on four slots, then a redundant position), sumxor (two '
-           'invocations of one class over different slot sets with equal sum and xor of the slot numbers).')
+           'invocations of one class over different slot sets with equal sum and xor of the slot numbers), symbinder (a binder over a child whose symmetry '
+           'exchanges the bound slot with a free one), wred (Main variant 19 `w(slot, child)`: the slot handed to the child at a redundant position).')
 _ADD = {
     'C01': _EG_ADD, 'C02': _EG_ADD, 'C08': _EG_ADD, 'C09': _EG_ADD + ' Every lookup probe is also looked up before every union (answers discarded).', 'C12': _EG_ADD, 'C13': _EG_ADD,
     'C03': ' Session 5: pool rule 33 `let-intro` (a binder only the right side writes); a third of the runs spell the rules\' own slots '
@@ -437,21 +439,25 @@ _ADD = {
     'C07': ' Session 5: stream latered2 (a child class dies before its leader learns a redundancy), stream ground (closed terms); half of the '
            'histories are preceded by another e-graph on the same thread with the same terms but other, separately labelled equations.',
     'C10': ' Session 5: `egr` cases — the symmetries are asserted by unions and 1-2 argument positions are declared redundant (before, after or '
-           'interleaved); expected: orbit closure and the restricted group (Lean `egrRun`, brute force in the harness); 0-7 fresh slots first.',
-    'C11': ' Session 5: stream symred4 in a sixth of the cases (see the eg streams).',
+           'interleaved); expected: orbit closure and the restricted group (Lean `egrRun`, brute force in the harness); 0-7 fresh slots first; for 2-3 slots the '
+           'leaf class is in half of the cases also merged with a second leaf class (either way round, with or without redundant positions).',
+    'C11': ' Session 5: stream symred4 in a sixth of the cases (see the eg streams); stream symfactor (`p*q + r*p` under mul-comm and the non-linear, slot-free factor rule).',
     'C14': ' Session 5: streams downgrade (a parent that uses a class directly and through a class whose datum depends on it; three unions) and tworoutes (one improvement reaches a class by two routes of different length); '
            'fresh-slot noise and warm-up e-graph as in the eg suites.',
     'C15': ' Session 5: a last hook that adds a class in every iteration (a third of the Runner cases); streams: `(k S S\')` with S\' the mirror '
            'image of a commutative S (an iteration that only adds a symmetry) and `x op x` before `x op y` under commutativity; three runner-only '
-           'rules (k-same, k-same-h, k-comm); rule objects re-used from another e-graph in half of the runs.',
-    'C17': ' Session 5: see the suites list — the `mat` suite covers the clause about internally invented slots.',
+           'rules (k-same, k-same-h, k-comm) and three that each flip one pair of the six-slot class `t3(f2 f2 f2)`; rule objects re-used from another e-graph in half of the runs.',
+    'C17': ' Session 5: see the suites list — the `mat` and `rw` suites cover the clause about internally invented slots (pattern slots spelled like '
+           'class slots; rules whose slots are spelled `$f<N>`; a class with a binder created over `$1` and reached again over `$0`, the name stored '
+           'shapes give their first binder, then rebuilt by the substitution of `let-subst`).',
     'C18': ' Session 5: half of the valid round trips draw 1-12 fresh slots between printing and parsing back; a sixth of the cases are `parse2` '
            'pairs: two texts parsed in ONE thread, the first usually broken at a dangling sigil after its first token, the model answering for '
-           'the second text alone.',
+           'the second text alone (in an eighth of them the first text, cut off inside several open parentheses, is parsed 150-350 times first).',
     'C19': ' Session 5: op `nf <N>` (`Slot::named("f<N>")`, modelled as the counter bump of C17) in a quarter of the random cases, the `$f<N>` '
-           'slots then used as keys and values next to compose_fresh.',
+           'slots then used as keys and values next to compose_fresh; the alphabet has named slots with two-digit names (n10..n13), which sort differently from their codes.',
     'C20': ' Session 5: a third of the symbol-free histories are replayed from TEXT (every replica parses the inserted terms), all named slots '
-           'spelled `$f<N>`.',
+           'spelled `$f<N>`; a quarter of the histories contain `(mul (add x y) 0)` next to a binder and the rule mul-zero.',
+    'C16': ' Session 5: one invocation in eight passes the same slot to two parameters (`c[x, x]`).',
 }
 for _k, _v in _ADD.items():
     if _k in PROPS:
